@@ -53,17 +53,31 @@ def fwd_event(cv, an, name, E, slat, slon, h, turn):
     return ev
 
 
-def fwdany_event(cv, name, E, lat, lon, h, out=None):
-    """forward conversion at ANY position (degrees as given): the closed form with the specification's own sines and cosines"""
+def fwdany_event(cv, name, E, lat, lon, h, out=None, form="float", an=None):
+    """forward conversion at ANY position (degrees as given): the closed form with the specification's own sines and cosines.
+    form: latitude / longitude handed over as floats or as objects of one of the five angle classes (the closed form is then
+    evaluated at the angle the object denotes)"""
+    alat, alon = lat, lon
+    if form != "float":
+        from harness import alpha
+        mk = {"dec": an.DECAngle, "hp": an.dec2hpa, "gon": an.dec2gona, "dms": an.dec2dms, "ddm": an.dec2ddm}[form]
+        alat, alon = mk(lat), mk(lon)
+        lat, lon = float(alpha.angle_deg(alat)), float(alpha.angle_deg(alon))
+        exact = (alpha.angle_deg(alat), alpha.angle_deg(alon))
+    else:
+        exact = None
     a = float(E.semimaj)
     invf = float(E.inversef)
     f = 1.0 / invf
     e2 = f * (2 - f)
     ev = {"k": "FwdAny", "ell": name, "a": fix.enc(a), "invf": fix.enc(invf), "f0": fix.enc(f),
           "r0": fix.enc(1.0 / math.sqrt(1 - e2 * math.sin(math.radians(lat)) ** 2)), "latdeg": fix.enc(float(lat)),
-          "londeg": fix.enc(float(lon)), "h": fix.enc(float(h)), "lat": lat, "lon": lon, "hf": float(h), "out": [[0], [0], [0]], "exc": ""}
+          "londeg": fix.enc(float(lon)), "h": fix.enc(float(h)), "lat": lat, "lon": lon, "hf": float(h), "out": [[0], [0], [0]], "exc": "",
+          "form": form}
+    if exact is not None:
+        ev["latdeg"], ev["londeg"] = fix.enc(exact[0]), fix.enc(exact[1])
     try:
-        x, y, z = cv.llh2xyz(lat, lon, float(h), E) if out is None else out
+        x, y, z = cv.llh2xyz(alat, alon, float(h), E) if out is None else out
         ev["out"] = [fix.enc(x), fix.enc(y), fix.enc(z)]
     except Exception as ex:
         ev["exc"] = "%s: %s" % (type(ex).__name__, str(ex)[:100])
@@ -124,7 +138,7 @@ def run(ctx):
         lon = rnd.choice([rnd.uniform(-360, 360), rnd.uniform(-360, 360), 0.0, 90.0, -90.0, 180.0, -180.0, 270.0, 360.0, -360.0,
                           90 + rnd.uniform(-1e-9, 1e-9)])
         h = rnd.choice([-1e4, 0.0, 4e7, rnd.uniform(-1e4, 4e7), rnd.uniform(-1e4, 1e4)])
-        traces.append({"ev": [fwdany_event(cv, name, E, lat, lon, h)]})
+        traces.append({"ev": [fwdany_event(cv, name, E, lat, lon, h, form=["float", "dec", "hp", "gon", "dms", "ddm", "float"][k % 7], an=an)]})
         calls += 1
     n_fwd = len(traces)
     # inverse: Cartesian points from geodetic strata and directly in all octants
